@@ -14,11 +14,9 @@ pub fn sim_from(snap: &Snap) -> Sim {
 pub fn collection_raw(sim: &Sim, node: &NodeId, collection_index: u8) -> BTreeMap<Vec<u8>, Vec<u8>> {
     let reader = SystemDatabaseReader::new(sim.substate_db());
     let mut out = BTreeMap::new();
-    if let Ok(it) = reader.collection_iter(node, ModuleId::Main, collection_index) {
-        for (k, v) in it {
-            if let SubstateKey::Map(m) = k {
-                out.insert(m, v);
-            }
+    if let Ok(part) = reader.get_partition_of_collection(node, ModuleId::Main, collection_index) {
+        for (k, v) in sim.substate_db().list_map_raw_values(node, part, None::<SubstateKey>) {
+            out.insert(k, v);
         }
     }
     out
